@@ -148,7 +148,9 @@ func writeValue(buf *bytes.Buffer, v value) {
 			case sDec:
 				fmt.Fprintf(buf, " dec(%s)", s.t)
 			case sBlob:
-				fmt.Fprintf(buf, " blob(%s)", s.blob.typ)
+				fmt.Fprintf(buf, " blob(%s ", s.blob.typ)
+				writeValue(buf, s.blob.snap)
+				buf.WriteString(")")
 			}
 		}
 		buf.WriteString(">")
